@@ -107,4 +107,13 @@ PROPS = {
         ],
         "assumptions": ["the three callers (DecodeAuthNRequest, DecodeLogoutRequest via the SSO/logout form readers) reach the inflater only through InflateAndDecode (fingerprinted)"],
     },
+    "C19": {
+        "modules": ["SamlModel.Props.C19"],
+        "translated": ["ValidateIssuer", "ValidateIssuerPath", "devLocalAllowed", "hasQueryOrFragment", "dynamicIssuer"],
+        "trusted_base": COMMON_TRUST + [
+            "net/url.Parse is an oracle (Ora.urlParse: Scheme, Host, Hostname(), Fragment, RawQuery, ForceQuery as net/url reports them); the harness checks the implementation against an independent RFC 3986 splitter that does not use net/url",
+            "muhlemmer/httpforwarded (Forwarded header parsing) and the closure of issuerFromForwardedOrHost are not translated: fingerprinted and observed through the served metadata's entityID against an RFC 7239 reading of the headers",
+        ],
+        "assumptions": ["scheme comparison follows net/url (scheme is lower-cased by the parser; schemes are case-insensitive per RFC 3986)"],
+    },
 }
